@@ -543,6 +543,35 @@ func (e *CEnv) call(n *ECall) *CV {
 			}
 		}
 		e.fail("%s of non-map", n.Fn)
+	case "upd":
+		// upd(array, key, value): functional update of a ghost array
+		a, k, v := e.eval(n.Args[0]), e.eval(n.Args[1]), e.eval(n.Args[2])
+		if !strings.HasPrefix(a.Sort, "(Array ") {
+			e.fail("upd on non-array %s", a.Sort)
+		}
+		ks, vs := splitArraySort(a.Sort)
+		if k.Sort != ks || v.Sort != vs {
+			e.fail("upd: expected (%s, %s), got (%s, %s)", ks, vs, k.Sort, v.Sort)
+		}
+		return &CV{T: Sto(a.T, k.T, v.T), Sort: a.Sort}
+	case "setfield":
+		// setfield(structValue, "Field", value)
+		x, v := e.eval(n.Args[0]), e.eval(n.Args[2])
+		fn, ok := n.Args[1].(*EStr)
+		if !ok {
+			e.fail("setfield needs a field name string")
+		}
+		f := ft.e.sorts.Field(x.Sort, fn.Val)
+		if f == nil {
+			e.fail("no field %s in %s", fn.Val, x.Sort)
+		}
+		if v.Sort == "Nil" {
+			v.T, v.Sort = e.nilOf(f.Sort), f.Sort
+		}
+		if v.Sort != f.Sort {
+			e.fail("setfield: field %s has sort %s, got %s", fn.Val, f.Sort, v.Sort)
+		}
+		return &CV{T: ft.e.sorts.UpdField(x.Sort, x.T, fn.Val, v.T), Sort: x.Sort, Type: x.Type}
 	case "typeis":
 		// typeis(x, pkg.Type) / typeis(x, ptr(pkg.Type)): dynamic type test on an interface
 		x := e.eval(n.Args[0])
